@@ -293,6 +293,12 @@ struct Shared {
     screen: Screen,
     /// chunks of commands not yet delivered to the screen
     pending: VecDeque<Vec<TerminalCommand>>,
+    /// number of the frame (handler call that asked for a frame) each pending chunk belongs to
+    pending_frame: VecDeque<u64>,
+    /// number of the last frame the application asked to be rendered
+    frame_no: u64,
+    /// frame number of the last chunk that reached the screen
+    delivered_frame: u64,
     current: Vec<TerminalCommand>,
     size: TerminalSize,
     commands: u64,
@@ -301,6 +307,17 @@ struct Shared {
     log: Option<Vec<String>>,
     /// frames_drop was called with a backlog
     dropped: bool,
+    /// number of commands executed when frames_drop was called last
+    dropped_at_command: u64,
+    polls: u64,
+    dropped_at_poll: u64,
+    /// surface of the last frame the application asked to be rendered (run_render sessions)
+    last_frame: Option<(Snapshot, TerminalSize)>,
+    /// features string for signatures, maintained by the session
+    features: String,
+    /// first violation seen while checking fully delivered frames inside poll
+    violation: Option<Violation>,
+    frames_checked: u64,
 }
 
 struct StubTerm {
@@ -337,6 +354,12 @@ impl StubTerm {
         let mut shared = self.shared.borrow_mut();
         for _ in 0..n {
             let Some(chunk) = shared.pending.pop_front() else { break };
+            if let Some(no) = shared.pending_frame.pop_front() {
+                // empty chunks (a poll that flushed nothing) carry no frame
+                if !chunk.is_empty() {
+                    shared.delivered_frame = no;
+                }
+            }
             if let Some(log) = shared.log.as_mut() {
                 log.push(format!("  delivered chunk of {} commands", chunk.len()));
             }
@@ -348,12 +371,42 @@ impl StubTerm {
 
     fn close_chunk(&self) {
         let mut shared = self.shared.borrow_mut();
-        if !shared.current.is_empty() {
+        // like UnixTerminal: every poll flushes, and a flush on a non-empty queue opens another
+        // (possibly empty) chunk, so the backlog grows with every poll while the peer is slow
+        if !shared.current.is_empty() || !shared.pending.is_empty() {
             let chunk = std::mem::take(&mut shared.current);
             if let Some(log) = shared.log.as_mut() {
                 log.push(strip_ansi(format!("  chunk closed: {:?}", chunk)));
             }
             shared.pending.push_back(chunk);
+            let no = shared.frame_no;
+            shared.pending_frame.push_back(no);
+        }
+    }
+
+    /// every queued frame has reached the screen: it must show the last rendered surface
+    fn check_delivered(&self) {
+        let (screen, frame, features) = {
+            let shared = self.shared.borrow();
+            if !shared.pending.is_empty() || !shared.current.is_empty() || shared.violation.is_some() {
+                return;
+            }
+            let Some((snap, size)) = shared.last_frame.as_ref() else { return };
+            if shared.delivered_frame != shared.frame_no {
+                // the frame the application drew last never reached the screen (dropped)
+                return;
+            }
+            if shared.screen.h != size.cells.height || shared.screen.w != size.cells.width || *size != shared.size {
+                return;
+            }
+            (shared.screen.clone(), (snap.clone(), *size), shared.features.clone())
+        };
+        let context = if self.shared.borrow().dropped { "a fully delivered frame of a run_render session that dropped frames" } else { "a fully delivered frame of a run_render session" };
+        let result = check_screen(&screen, &frame.0, frame.1, context, &features);
+        let mut shared = self.shared.borrow_mut();
+        shared.frames_checked += 1;
+        if let Err(violation) = result {
+            shared.violation = Some(violation);
         }
     }
 
@@ -383,18 +436,30 @@ impl Terminal for StubTerm {
 
     fn poll(&mut self, _timeout: Option<Duration>) -> Result<Option<TerminalEvent>, Error> {
         self.close_chunk();
+        self.shared.borrow_mut().polls += 1;
         let step = self.script.borrow_mut().pop_front();
         match step {
-            None => Err(Error::Quit),
-            Some(PollStep::Fail) => Err(Error::Quit),
+            None => {
+                self.deliver(usize::MAX);
+                self.check_delivered();
+                Ok(None)
+            }
+            Some(PollStep::Fail) => {
+                // from here on run_render is on its error path: the cleanup frame replaces the last one
+                self.shared.borrow_mut().last_frame = None;
+                Err(Error::Quit)
+            }
             Some(PollStep::Event(n, event)) => {
                 self.deliver(n);
+                self.check_delivered();
                 Ok(event)
             }
             Some(PollStep::Resize(n, size)) => {
                 self.deliver(n);
                 let mut shared = self.shared.borrow_mut();
                 shared.size = size;
+                // what the window shows after a resize is arbitrary until the next frame is rendered
+                shared.last_frame = None;
                 // the window changed: a new grid; layered placements and the current face survive
                 let old = shared.screen.clone();
                 shared.screen = Screen::new(size, old.layered);
@@ -430,14 +495,18 @@ impl Terminal for StubTerm {
         shared.current.clear();
         let pending = shared.pending.len();
         shared.dropped = true;
+        shared.dropped_at_command = shared.commands;
+        shared.dropped_at_poll = shared.polls;
         if let Some(log) = shared.log.as_mut() {
             log.push(format!("  frames_drop: {} pending chunks", pending));
         }
         if self.drop_all {
             shared.pending.clear();
+            shared.pending_frame.clear();
         } else {
             // all but the one in flight (what UnixTerminal does)
             shared.pending.truncate(1);
+            shared.pending_frame.truncate(1);
         }
     }
 
@@ -654,12 +723,22 @@ fn check_screen(screen: &Screen, snapshot: &Snapshot, size: TerminalSize, contex
     let shared = Rc::new(RefCell::new(Shared {
         screen: Screen::new(size, screen.layered),
         pending: VecDeque::new(),
+        pending_frame: VecDeque::new(),
+        frame_no: 0,
+        delivered_frame: 0,
         current: Vec::new(),
         size,
         commands: 0,
         fail_execute_in: None,
         log: None,
         dropped: false,
+        dropped_at_command: 0,
+        polls: 0,
+        dropped_at_poll: 0,
+        last_frame: None,
+        features: String::new(),
+        violation: None,
+        frames_checked: 0,
     }));
     let mut term = StubTerm { shared: shared.clone(), caps: TerminalCaps::default(), script: Rc::new(RefCell::new(VecDeque::new())), drop_all: true };
     let mut renderer = TerminalRenderer::new(&mut term, true).map_err(|e| Violation::new(P, "C01.error", "scratch-new", format!("{e:?}")))?;
@@ -820,7 +899,7 @@ fn run(ctx: &Ctx, src: &mut Src) -> WorldResult {
     let mut pools = gen_pools(ctx, src, size);
     let prefill = src.chance(1, 3);
     src.log(|| format!("terminal {}x{} ppc={:?} personality={} prefill={}", size.cells.height, size.cells.width, size.pixels_per_cell(), if layered { "layered" } else { "cell" }, prefill));
-    let shared = Rc::new(RefCell::new(Shared { screen: Screen::new(size, layered), pending: VecDeque::new(), current: Vec::new(), size, commands: 0, fail_execute_in: None, log: None, dropped: false }));
+    let shared = Rc::new(RefCell::new(Shared { screen: Screen::new(size, layered), pending: VecDeque::new(), pending_frame: VecDeque::new(), frame_no: 0, delivered_frame: 0, current: Vec::new(), size, commands: 0, fail_execute_in: None, log: None, dropped: false, dropped_at_command: 0, polls: 0, dropped_at_poll: 0, last_frame: None, features: String::new(), violation: None, frames_checked: 0 }));
     let mut term = StubTerm { shared: shared.clone(), caps: TerminalCaps::default(), script: Rc::new(RefCell::new(VecDeque::new())), drop_all: true };
     if prefill {
         shared.borrow_mut().screen.scribble(src);
@@ -945,7 +1024,7 @@ fn run_session(ctx: &Ctx, src: &mut Src) -> WorldResult {
     let steps = if long { 36 + src.draw(44) as usize } else { 1 + src.draw(10) as usize };
     let slow = long || src.chance(1, 3);
     src.log(|| format!("run_render session: terminal {}x{} ppc={:?} personality={} frames_drop={} steps={} slow={}", size0.cells.height, size0.cells.width, size0.pixels_per_cell(), if layered { "layered" } else { "cell" }, if drop_all { "all" } else { "all-but-in-flight" }, steps, slow));
-    let shared = Rc::new(RefCell::new(Shared { screen: Screen::new(size0, layered), pending: VecDeque::new(), current: Vec::new(), size: size0, commands: 0, fail_execute_in: None, log: None, dropped: false }));
+    let shared = Rc::new(RefCell::new(Shared { screen: Screen::new(size0, layered), pending: VecDeque::new(), pending_frame: VecDeque::new(), frame_no: 0, delivered_frame: 0, current: Vec::new(), size: size0, commands: 0, fail_execute_in: None, log: None, dropped: false, dropped_at_command: 0, polls: 0, dropped_at_poll: 0, last_frame: None, features: String::new(), violation: None, frames_checked: 0 }));
     if src.tracing() {
         shared.borrow_mut().log = Some(Vec::new());
     }
@@ -1027,6 +1106,15 @@ fn run_session(ctx: &Ctx, src: &mut Src) -> WorldResult {
                 let snap = snapshot_of(&surf);
                 used.borrow_mut().scan(&snap, size.pixels_per_cell());
                 src.log(|| format!("handler#{handler_calls} event={:?} frame: {}", event, render_ascii(&snap)));
+                {
+                    let mut sh = shared2.borrow_mut();
+                    let mut u = used.borrow_mut();
+                    u.dropped |= sh.dropped;
+                    u.forced_clear |= sh.dropped;
+                    sh.features = u.features();
+                    sh.last_frame = Some((snap.clone(), size));
+                    sh.frame_no = handler_calls as u64;
+                }
                 *last.borrow_mut() = Some((snap, size));
             } else {
                 src.log(|| format!("handler#{handler_calls} event={:?} no frame", event));
@@ -1053,6 +1141,9 @@ fn run_session(ctx: &Ctx, src: &mut Src) -> WorldResult {
         src.probe("resize-during-run-render");
     }
     let dropped_seen = dropped_seen || shared.borrow().dropped;
+    if shared.borrow().dropped && shared.borrow().dropped_at_poll == shared.borrow().polls {
+        src.probe("frames-dropped-on-the-final-iteration");
+    }
     {
         let mut used = used.borrow_mut();
         used.dropped = dropped_seen;
@@ -1060,6 +1151,12 @@ fn run_session(ctx: &Ctx, src: &mut Src) -> WorldResult {
         used.forced_clear |= dropped_seen || sizes.len() > 1;
     }
     let features = used.borrow().features();
+    if shared.borrow().frames_checked > 0 {
+        src.probe("session-frame-checked-when-fully-delivered");
+    }
+    if let Some(violation) = shared.borrow_mut().violation.take() {
+        return Err(violation);
+    }
     match result {
         Ok(_) => {
             src.sig_str("session:quit");
